@@ -11,24 +11,27 @@ inductive SrvEv
   | recv (src : Nat) (p : Payload)
   | req (r : SvcReq)
   | setPw (pw : Option Nat)
-  | backup (b : Backup) (pq : Bool)
-  | restore (b : Backup) (pq pr : Bool)
-  | fileDelete | fileCorrupt | fileRepair
+  | backup (b : Backup) (pq big : Bool)
+  | restore (b : Backup) (pq pr sendOk : Bool)
+  | fileDelete | fileCorrupt | fileRepair | folderDelete
+  | admin (a : Admin)
   | powerOn | powerOff
-  | tick (b : Backup) (t : Nat) (pq pr : Bool)
+  | tick (b : Backup) (t : Nat) (pq pr big sendOk : Bool)
 
 def SrvEv.apply (s : Server) : SrvEv → Server
   | .recv src p => (s.receive src p).1
   | .req r => (s.request r).1
   | .setPw pw => { s with password := pw }
-  | .backup b pq => (backupDatabase s b pq).1
-  | .restore b pq pr => (restoreBackup s b pq pr).1
+  | .backup b pq big => (backupDatabase s b pq big).1
+  | .restore b pq pr k => (restoreBackup s b pq pr k).1
+  | .folderDelete => s.folderDelete.1
+  | .admin a => (s.admin a).1
   | .fileDelete => s.fileDelete.1
   | .fileCorrupt => s.fileCorrupt.1
   | .fileRepair => s.fileRepair.1
   | .powerOn => s.powerOn
   | .powerOff => s.powerOff
-  | .tick b t pq pr => (serverTick s b t pq pr).1
+  | .tick b t pq pr big k => (serverTick s b t pq pr big k).1
 
 /-- `s'` is reached from `s` by finitely many events, each satisfying `A`. -/
 inductive Reach (A : SrvEv → Prop) : Server → Server → Prop
@@ -73,13 +76,18 @@ def OpAllows : Op → SrvEv → Prop
   | .ransom _ q, e => IsConnect e ∨ IsSql q e
   | .svc r, e => e = .req r
   | .setPw pw, e => e = .setPw pw
-  | .backup, e => ∃ b pq, e = .backup b pq
-  | .restore, e => ∃ b pq pr, e = .restore b pq pr
+  | .backup _, e => ∃ b pq big, e = .backup b pq big
+  | .restore _ _, e => ∃ b pq pr k, e = .restore b pq pr k
+  | .folderDelete, e => e = .folderDelete
+  | .admin a, e => e = .admin a
+  | .bkDelete, _ => False
+  | .dm _ q _ _ _, e => IsConnect e ∨ IsSql q e
+  | .ransomReq _ q, e => IsConnect e ∨ IsSql q e
   | .fileDelete, e => e = .fileDelete
   | .fileCorrupt, e => e = .fileCorrupt
   | .fileRepair, e => e = .fileRepair
   | .power who on, e => who = 0 ∧ e = (if on then SrvEv.powerOn else SrvEv.powerOff)
-  | .tick, e => ∃ b t pq pr, e = .tick b t pq pr
+  | .tick _ _ _, e => ∃ b t pq pr big k, e = .tick b t pq pr big k
   | .install _, _ => False
   | .appRun _, _ => False
   | .appClose _, _ => False
@@ -94,11 +102,11 @@ def OpAllows : Op → SrvEv → Prop
 theorem send_srv (st : State) (i : Nat) (p : Payload) :
     (st.send i p).1.srv = st.srv ∨ (st.send i p).1.srv = (st.srv.receive i p).1 := by
   unfold State.send
-  by_cases hr : st.reqOpen i = true
-  · right
-    simp only [hr, Bool.not_true, Bool.false_eq_true, if_false]
-    split <;> rfl
+  by_cases hr : (!st.reqOpen i || !st.srv.listening) = true
   · left; simp [hr]
+  · right
+    simp only [hr, Bool.false_eq_true, if_false]
+    split <;> rfl
 
 theorem send_reach (st : State) (i : Nat) (p : Payload) :
     Reach (fun e => e = .recv i p) st.srv (st.send i p).1.srv := by
@@ -261,8 +269,43 @@ theorem ransom_reach (st : State) (i : Nat) (q : Sql) :
           · exact h1
           · exact h1.trans ((handleQuery_reach (st1.ransomConnect i c2).1 _ _).mono (fun e he => Or.inr he))
 
-theorem tick_srv (st : State) : st.tick.srv =
-    (serverTick st.srv st.bk (st.t + 1) (st.bk.node.isOn && !st.blockFtpReq) (st.bk.node.isOn && !st.blockFtpResp)).1 := rfl
+theorem dmConnect_reach (st : State) (i : Nat) (c : Client) :
+    Reach IsConnect st.srv (st.dmConnect i c).1.srv := by
+  unfold State.dmConnect
+  split
+  · exact .refl _
+  · dsimp only
+    simp only [updClient_srv]
+    exact getNewConnection_reach st i
+
+theorem dmAttack_reach (st : State) (i : Nat) (q : Sql) (scan atk : Bool) :
+    Reach (fun e => IsConnect e ∨ IsSql q e) st.srv (st.dmAttack i q scan atk).1.srv := by
+  unfold State.dmAttack
+  split
+  · exact .refl _
+  · split
+    · exact .refl _
+    · dsimp only
+      split
+      · exact .refl _
+      · split
+        · exact .refl _
+        · split
+          · simp only [updClient_srv]; exact .refl _
+          · rename_i c _ _ _ _ _
+            generalize hc2 : ({ c with dmApp := appRun c.node.isOn c.dmApp, serverPw := c.dmPw, dmStage := dmAdvance c.dmStage scan } : Client) = c2
+            generalize hst1 : (st.setClient i { c with dmApp := appRun c.node.isOn c.dmApp }).setClient i c2 = st1
+            have hs : st1.srv = st.srv := by rw [← hst1]; rfl
+            have h1 := (dmConnect_reach st1 i c2).mono (B := fun e => IsConnect e ∨ IsSql q e) (fun e he => Or.inl he)
+            rw [hs] at h1
+            split
+            · simp only [updClient_srv]; exact h1
+            · simp only [updClient_srv]
+              exact h1.trans ((handleQuery_reach (st1.dmConnect i c2).1 _ _).mono (fun e he => Or.inr he))
+
+theorem tick_srv (st : State) (big downOk sendOk : Bool) : (st.tick big downOk sendOk).srv =
+    (serverTick st.srv st.bk (st.t + 1) (st.bk.node.isOn && !st.blockFtpReq) (st.bk.node.isOn && !st.blockFtpResp && downOk)
+      big sendOk).1 := rfl
 
 /-- The refinement: every operation acts on the server through permitted events only. -/
 theorem step_reach (st : State) (op : Op) : Reach (OpAllows op) st.srv (step st op).1.srv := by
@@ -323,8 +366,32 @@ theorem step_reach (st : State) (op : Op) : Reach (OpAllows op) st.srv (step st 
   | ransom i q => exact ransom_reach st i q
   | svc r => exact Reach.single (A := OpAllows (.svc r)) st.srv (.req r) rfl
   | setPw pw => exact Reach.single (A := OpAllows (.setPw pw)) st.srv (.setPw pw) rfl
-  | backup => exact Reach.single (A := OpAllows .backup) st.srv (.backup st.bk st.ftpReq) ⟨_, _, rfl⟩
-  | restore => exact Reach.single (A := OpAllows .restore) st.srv (.restore st.bk st.ftpReq st.ftpResp) ⟨_, _, _, rfl⟩
+  | backup big =>
+    simp only [step]; split
+    · exact .refl _
+    · exact Reach.single (A := OpAllows (.backup big)) st.srv (.backup st.bk st.ftpReq big) ⟨_, _, _, rfl⟩
+  | restore d k =>
+    simp only [step]; split
+    · exact .refl _
+    · exact Reach.single (A := OpAllows (.restore d k)) st.srv (.restore st.bk st.ftpReq (st.ftpResp && d) k) ⟨_, _, _, _, rfl⟩
+  | folderDelete => exact Reach.single (A := OpAllows .folderDelete) st.srv .folderDelete rfl
+  | admin a => exact Reach.single (A := OpAllows (.admin a)) st.srv (.admin a) rfl
+  | bkDelete =>
+    simp only [step]; split <;> exact .refl _
+  | dm i q scan atk via =>
+    simp only [step]; split
+    · exact .refl _
+    · split
+      · exact .refl _
+      · split
+        · exact .refl _
+        · exact dmAttack_reach st i q scan atk
+  | ransomReq i q =>
+    simp only [step]; split
+    · exact .refl _
+    · split
+      · exact .refl _
+      · exact ransom_reach st i q
   | fileDelete => exact Reach.single (A := OpAllows .fileDelete) st.srv .fileDelete rfl
   | fileCorrupt => exact Reach.single (A := OpAllows .fileCorrupt) st.srv .fileCorrupt rfl
   | fileRepair => exact Reach.single (A := OpAllows .fileRepair) st.srv .fileRepair rfl
@@ -358,10 +425,10 @@ theorem step_reach (st : State) (op : Op) : Reach (OpAllows op) st.srv (step st 
     · split
       · exact .refl _
       · split <;> exact .refl _
-  | tick =>
-    show Reach _ st.srv st.tick.srv
+  | tick big d k =>
+    show Reach _ st.srv (st.tick big d k).srv
     rw [tick_srv]
-    exact Reach.single (A := OpAllows .tick) st.srv (.tick st.bk (st.t + 1) _ _) ⟨_, _, _, _, rfl⟩
+    exact Reach.single (A := OpAllows (.tick big d k)) st.srv (.tick st.bk (st.t + 1) _ _ big k) ⟨_, _, _, _, _, _, rfl⟩
 
 /-- All operation sequences. -/
 theorem run_reach (st : State) (ops : List Op) :
